@@ -16,6 +16,7 @@ for f in $w/new/*.py; do b=$(basename $f); cp $f $w/a/$b; cp $f $w/b/$b
     if git merge-file -p $w/patched/$b $w/old/$b $w/new/$b > $w/b/$b 2>/dev/null; then :; else ok=0; echo "CONFLICT in $b"; fi
   fi
 done
+if [ $ok = 0 ]; then rm -rf $w; exit 4; fi
 if [ $ok = 1 ]; then (cd $w && git diff --no-index --no-color a b | sed -e 's#^diff --git a/a/#diff --git a/#' -e 's# b/b/# b/#' -e 's#^--- a/a/#--- a/#' -e 's#^+++ b/b/#+++ b/#') > $w/out.diff || true
   if [ -s $w/out.diff ]; then cp $w/out.diff "$diff"; echo "rebased $1"; else echo "EMPTY result for $1"; fi
 fi
